@@ -38,9 +38,7 @@ def nearest(ctx, fmt, x, y, base, tag):
   k = fixed.output_code(fmt, y)
   e = fixed.exact_code(fmt, x)
   ctx.evals(k.size)
-  tol = 0.5 + fmt.slack
-  if not fixed.is_dyadic(fmt.alpha):
-    tol += 1e-6 * np.maximum(1.0, np.abs(k))
+  tol = 0.5 + fmt.slack + fixed.code_tolerance(fmt, x, y, k)
   err = np.abs(k - e)
   bad = err > tol
   if bad.any():
